@@ -116,7 +116,13 @@ pub fn replay(args: &[String]) {
         let key = kinds.join(" ");
         let bad = match parse_lexemes(&kinds, &lex, &["u"]) {
             Parsed::Ok(t) => {
-                if matches(&t, &rec["ast"], &lex) { None } else { Some(json!({"what": "tree differs from the derivation's tree", "text": lex.join(" "), "want": rec["ast"], "got": t})) }
+                if !matches(&t, &rec["ast"], &lex) {
+                    Some(json!({"what": "tree differs from the derivation's tree", "text": lex.join(" "), "want": rec["ast"], "got": t}))
+                } else if rec["ast"].get("sp").is_some() {
+                    check_spans(&kinds, &lex, &["u"], &rec["ast"]).map(|m| json!({"what": "source range of a node is not the node's text", "text": lex.join(" "), "detail": m}))
+                } else {
+                    None
+                }
             }
             Parsed::Err(nerr, msg) => Some(json!({"what": "sentence of grammar.y rejected", "text": lex.join(" "), "want": rec["ast"], "errors": nerr, "msg": msg})),
             Parsed::LexMismatch => Some(json!({"what": "harness: lexemes did not tokenise as intended", "text": lex.join(" ")})),
@@ -129,13 +135,14 @@ pub fn replay(args: &[String]) {
     let mut trees: std::collections::HashMap<String, String> = Default::default();
     let mut ambiguous: Vec<String> = vec![];
     let mut bad: Vec<Value> = vec![];
+    let mut span_bad: Vec<Value> = vec![];
     for (key, b, ast) in results {
         if !sentences.insert(key.clone()) && trees.get(&key) != Some(&ast) {
             ambiguous.push(key.clone());
         }
         trees.entry(key).or_insert(ast);
         if let Some(b) = b {
-            bad.push(b);
+            if b["what"].as_str().is_some_and(|w| w.starts_with("source range")) { span_bad.push(b) } else { bad.push(b) }
         }
     }
     // ---- reject direction: every token string up to N that is not a sentence must be rejected by the syntax stage.
@@ -216,7 +223,8 @@ pub fn replay(args: &[String]) {
     }
     let sample = lines.get(lines.len() / 2).and_then(|l| util::parse_tlc_line(l, "SENT"));
     let out = json!({"sentences": sentences.len(), "derivations": lines.len(), "ambiguous": ambiguous.iter().take(10).collect::<Vec<_>>(), "n_ambiguous": ambiguous.len(),
-        "tree_mismatches": bad.len(), "first": bad.iter().take(60).collect::<Vec<_>>(), "strings": strings, "over_accepted": over.len(), "over": over, "panics": panics, "sample": sample});
+        "tree_mismatches": bad.len(), "first": bad.iter().take(60).collect::<Vec<_>>(),
+        "span_mismatches": span_bad.len(), "span_first": span_bad.iter().take(400).collect::<Vec<_>>(), "strings": strings, "over_accepted": over.len(), "over": over, "panics": panics, "sample": sample});
     std::fs::write(&args[2], serde_json::to_string(&out).unwrap()).unwrap();
 }
 
@@ -294,4 +302,85 @@ pub fn accepts(args: &[String]) {
         out += &format!("{}\n", json!({"id": i + 1, "y": y, "accepted": r.unwrap_or(false), "panicked": r.is_none()}));
     }
     std::fs::write(&args[1], out).unwrap();
+}
+
+
+// C15 (iii): the source range of every node of the parser's output covers exactly the tokens of that node (`sp` prescribed by
+// GramUnparse); parentheses written directly around the node may be included.
+fn span_ok(range: Option<crate::error::SourceRange>, sp: &Value, toks: &[Token]) -> bool {
+    let Some(r) = range else { return false };
+    let (f, l) = (sp[0].as_u64().unwrap() as usize, sp[1].as_u64().unwrap() as usize);
+    if f == 0 || l > toks.len() || f > l {
+        return false;
+    }
+    let (mut s, mut e) = (f - 1, l - 1); // token indices
+    loop {
+        if r.start == toks[s].source_range.start && r.end == toks[e].source_range.end {
+            return true;
+        }
+        // widen by one pair of directly enclosing parentheses
+        if s > 0 && e + 1 < toks.len() && matches!(toks[s - 1].variant, crate::token::Variant::LeftParen) && matches!(toks[e + 1].variant, crate::token::Variant::RightParen) {
+            s -= 1;
+            e += 1;
+        } else {
+            return false;
+        }
+    }
+}
+
+pub fn spans_match(t: &crate::term::Term, ast: &Value, toks: &[Token], text: &str) -> Option<String> {
+    use crate::term::Variant::*;
+    let k = ast["k"].as_str().unwrap_or("");
+    if k == "hole" {
+        return None;
+    }
+    if let Some(sp) = ast.get("sp") {
+        if !span_ok(t.source_range, sp, toks) {
+            let got = t.source_range.map(|r| text.get(r.start..r.end).unwrap_or("?").to_string());
+            // signature of the recorded finding: the range ends where it should but starts after the opening parenthesis(es) of a
+            // parenthesised first operand
+            let (f, l) = (sp[0].as_u64().unwrap() as usize, sp[1].as_u64().unwrap() as usize);
+            let lost = t.source_range.is_some_and(|r| {
+                l <= toks.len() && r.end == toks[l - 1].source_range.end && {
+                    let mut i = f - 1;
+                    while i < toks.len() && matches!(toks[i].variant, crate::token::Variant::LeftParen) && toks[i].source_range.start < r.start {
+                        i += 1;
+                    }
+                    i > f - 1 && i < toks.len() && toks[i].source_range.start == r.start
+                }
+            });
+            return Some(format!("{}node `{k}` at tokens {sp}: source range is {got:?}", if lost { "LOST-OPEN-PAREN " } else { "" }));
+        }
+    }
+    let both = |a: &crate::term::Term, x: &Value, b: &crate::term::Term, y: &Value| spans_match(a, x, toks, text).or_else(|| spans_match(b, y, toks, text));
+    match &t.variant {
+        Lambda(_, _, a, b) | Pi(_, _, a, b) => both(a, &ast["a"], b, &ast["b"]),
+        Application(a, b) | Sum(a, b) | Difference(a, b) | Product(a, b) | Quotient(a, b) | LessThan(a, b) | LessThanOrEqualTo(a, b) | EqualTo(a, b) | GreaterThan(a, b)
+        | GreaterThanOrEqualTo(a, b) => both(a, &ast["a"], b, &ast["b"]),
+        Negation(a) => spans_match(a, &ast["a"], toks, text),
+        If(c, a, b) => spans_match(c, &ast["c"], toks, text).or_else(|| both(a, &ast["a"], b, &ast["b"])),
+        Let(ds, b) => {
+            let ad = ast["defs"].as_array()?;
+            for ((_, an, df), d) in ds.iter().zip(ad) {
+                if let Some(m) = spans_match(an, &d["ann"], toks, text).or_else(|| spans_match(df, &d["def"], toks, text)) {
+                    return Some(m);
+                }
+            }
+            spans_match(b, &ast["b"], toks, text)
+        }
+        _ => None,
+    }
+}
+
+pub fn check_spans(kinds: &[&str], lex: &[String], context: &[&str], ast: &Value) -> Option<String> {
+    let text = lex.join(" ");
+    let r = util::guarded(|| {
+        let toks = tokenizer::tokenize(None, &text).ok()?;
+        if toks.len() != kinds.len() {
+            return None;
+        }
+        let t = parser::parse(None, &text, &toks[..], context).ok()?;
+        spans_match(&t, ast, &toks, &text)
+    });
+    r.unwrap_or(None)
 }
